@@ -49,6 +49,7 @@ pub fn check(c: &Case, ctx: &mut Ctx) -> Result<(), Failure> {
     let mut obv_prev = 0.0f64;
     let mut mfi_big = 0.0f64;
     let mut tp_big = 0.0f64;
+    let mut cci_sum_overflowed = false;
     let (mut ups, mut downs, mut equals) = (false, false, false);
     let (mut checked, mut ill, mut degen, mut taint) = (0u64, 0u64, 0u64, 0u64);
     for i in 0..len {
@@ -121,6 +122,13 @@ pub fn check(c: &Case, ctx: &mut Ctx) -> Result<(), Failure> {
             }
             Kind::Cci => {
                 tp_big = tp_big.max(bar.tp().abs());
+                if tp_big > 1e300 {
+                    // n window values plus the incoming one (MeanAbsoluteDeviation adds before it subtracts)
+                    let wsum: f64 = bars[w0.saturating_sub(1)..].iter().map(|b| tp_dd(b).to_f64().abs()).sum();
+                    if !wsum.is_finite() {
+                        cci_sum_overflowed = true;
+                    }
+                }
                 exp.push(("cci", cci_ref(&bars, n, tp_big), 1.0 / 0.015, false))
             }
             Kind::Mfi => {
@@ -176,6 +184,17 @@ pub fn check(c: &Case, ctx: &mut Ctx) -> Result<(), Failure> {
             let ok = if r.c == 0.0 { got == r.val.to_f64() } else { e <= tol };
             ctx.worst(&format!("{}.{}", name, field), if tol > 0.0 { e / tol } else { 0.0 });
             if !ok {
+                // precondition class of known finding K1: the sum of the window's typical prices exceeds
+                // f64::MAX although the mean, the deviation and the CCI value itself are ordinary numbers
+                if k == Kind::Cci {
+                    if cci_sum_overflowed {
+                        ctx.fail(
+                            "C03:CCI:cci:window_sum_overflow".into(),
+                            format!("{} step {}: cci = {:e}, documented formula gives {:e}: at this or an earlier step the sum of the {} typical prices in the window (each about {:e}) (plus the incoming one) exceeded f64::MAX, so a running sum behind the SMA / mean-deviation term became inf (and stays inf/NaN until reset)", c.cfg.tag(), i, got, r.val.to_f64(), t.min(n), bar.tp()),
+                        )?;
+                        continue;
+                    }
+                }
                 ctx.fail(
                     format!("C03:{}:{}:mismatch", name, field),
                     format!(
@@ -252,9 +271,9 @@ fn no_mult() -> BoxedStrategy<f64> {
 /// is_normal() or EPSILON hidden in a guard show up only here. CCI is left out: 0.015*MAD itself would be
 /// a coarse subnormal, so its documented formula is not evaluable to the stated tolerance there.
 /// prices in an enormous unit (1e304 .. 5e307): x*100 overflows although every documented value is an
-/// ordinary number; MFI and CCI are left out (price x volume, and the sum of n typical prices, exceed f64::MAX by definition)
+/// ordinary number; MFI is left out (price x volume exceeds f64::MAX by definition); CCI is included and exposes the known finding K1 (the running sum behind its SMA term overflows although every documented quantity is representable)
 fn huge_strategy() -> BoxedStrategy<Case> {
-    const HB: [Kind; 3] = [Kind::FastStoch, Kind::SlowStoch, Kind::Obv];
+    const HB: [Kind; 4] = [Kind::FastStoch, Kind::SlowStoch, Kind::Cci, Kind::Obv];
     prop_oneof![
         3 => cfg_among(&SK, 64, no_mult).prop_flat_map(|cfg| { let n = cfg.n(); (Just(cfg), stream(Domain::Huge, 1, 4 * n + 60)) }).prop_map(|(cfg, s)| Case { cfg, scalar: true, xs: xs(&s.vals), bars: vec![], stride: 0 }),
         1 => cfg_among(&HB, 64, no_mult).prop_flat_map(|cfg| { let n = cfg.n(); (Just(cfg), bar_stream_dom(Domain::Huge, 1, 4 * n + 60)) }).prop_map(|(cfg, s)| Case { cfg, scalar: false, xs: vec![], bars: s.bars, stride: 0 }),
